@@ -80,12 +80,18 @@ def write_pcapng(items, cfg):
     opts += (o_off + o_res) if cfg.get("tsoffset_first") else (o_res + o_off)
     if opts:
         opts += _opt(e, 0, b"")
+    ifid = 0
+    if cfg.get("first_idb_linktype") is not None:
+        # a capture of several interfaces whose first one is not Ethernet (loopback, raw IP, Linux cooked) and saw none
+        # of the packets; same timestamp options; every packet belongs to interface 1
+        out.append(_block(e, 1, struct.pack(e + "HHI", cfg["first_idb_linktype"], 0, cfg.get("snaplen", 0x40000)) + opts))
+        ifid = 1
     out.append(_block(e, 1, idb + opts))
     for it in items:
         if it[0] == "pkt":
             _, ts_us, fr = it
             u = ts_units(ts_us, cfg)
-            body = struct.pack(e + "IIIII", 0, (u >> 32) & 0xFFFFFFFF, u & 0xFFFFFFFF, len(fr), len(fr)) + _pad4(fr)
+            body = struct.pack(e + "IIIII", ifid, (u >> 32) & 0xFFFFFFFF, u & 0xFFFFFFFF, len(fr), len(fr)) + _pad4(fr)
             if cfg.get("epb_opts"):
                 body += _opt(e, 1, b"pkt") + _opt(e, 2, struct.pack(e + "I", 1)) + _opt(e, 0, b"")
             out.append(_block(e, 6, body))
